@@ -15,16 +15,16 @@ import (
 func init() { Registry["C08"] = C08 }
 
 // reviewed order-sensitive map iterations: function -> (ranged expression suffix, reason)
-var c08ReviewedRanges = []struct{ Fn, Over, Why string }{
-	{"actionValidateDkgProposalAwaitMasterKey", "DKGProposalPayload.Quorum", "collects the announced master keys into a slice whose only consumer is the all-equal comparison: the verdict is independent of the order"},
-	{"actionValidateSignatureProposal", "SignatureProposalPayload.Quorum", "builds the status response of the collected event; the node replaces that response by the DKG hand-over's response and never persists it"},
-	{"reconstructThresholdSignature", "PartialSigns", "files each share under its message id (per-key append); the order inside one key's list is given by the outer, ordered participant slice"},
-	{"reconstructThresholdSignature", "makemap<types.BatchPartialSignatures>", "the result slice is stored by SaveSignatures keyed by batch and message id and broadcast as this node's own message; its order is not part of the round state"},
-	{"StatesList", "f.transitions", "the list is only searched for membership / used to fill maps"},
-	{"StatesList", "makemap<map[fsm.State]*>", "idem (a local set of states, whatever its value type)"},
-	{"EventsList", "f.transitions", "the list is only used to fill the pool's event map"},
-	{"EventsList", "makemap<map[fsm.Event]*>", "idem (a local set of events, whatever its value type)"},
-	{"FinStatesList", "f.finStates", "the list is only used to fill the pool's state map"},
+var c08ReviewedRanges = []struct{ Fn, Over, Why, Premise string }{
+	{"actionValidateDkgProposalAwaitMasterKey", "DKGProposalPayload.Quorum", "collects the announced master keys into a slice whose only consumer is the all-equal comparison: the verdict is independent of the order", "slice-only-compared"},
+	{"actionValidateSignatureProposal", "SignatureProposalPayload.Quorum", "builds the status response of the collected event; the node replaces that response by the DKG hand-over's response and never persists it", ""},
+	{"reconstructThresholdSignature", "PartialSigns", "files each share under its message id (per-key append); the order inside one key's list is given by the outer, ordered participant slice", ""},
+	{"reconstructThresholdSignature", "makemap<types.BatchPartialSignatures>", "the result slice is stored by SaveSignatures keyed by batch and message id and broadcast as this node's own message; its order is not part of the round state", ""},
+	{"StatesList", "f.transitions", "the list is only searched for membership / used to fill maps", ""},
+	{"StatesList", "makemap<map[fsm.State]*>", "idem (a local set of states, whatever its value type)", ""},
+	{"EventsList", "f.transitions", "the list is only used to fill the pool's event map", ""},
+	{"EventsList", "makemap<map[fsm.Event]*>", "idem (a local set of events, whatever its value type)", ""},
+	{"FinStatesList", "f.finStates", "the list is only used to fill the pool's state map", ""},
 }
 
 // allow-listed clock/uuid uses on the replay path: function -> callee prefix -> what the value may flow into
@@ -120,6 +120,15 @@ func c08MapRanges(c *Ctx, scope []*ssa.Function) {
 				}
 				if rv.Fn == f.Name() && match {
 					usedReview[i] = true
+					if rv.Premise == "slice-only-compared" {
+						// the review's premise is re-checked: the slice filled in map order is consumed only by comparisons whose
+						// outcome has the same effect whichever pair of elements triggers it
+						if bad := c08SliceOnlyCompared(c, f, rg); len(bad) > 0 {
+							r.Fail("C08/R1", "map-range:"+key, "iteration over a map is order-insensitive or reviewed", c.PosOf(in),
+								"the reviewed premise ("+rv.Why+") no longer holds: "+strings.Join(bad, "; ")+" — which participant is affected depends on Go's randomised map order, so two nodes (or one node after a replay) derive different states from the same log")
+							return
+						}
+					}
 					r.OKd("C08/R1", "map-range:"+key, "iteration over a map is order-insensitive or reviewed", c.PosOf(in), "reviewed: "+rv.Why+" [order-sensitive effects: "+strings.Join(why, "; ")+"]")
 					return
 				}
@@ -770,4 +779,229 @@ func observedOnly(v ssa.Value, depth int, seen map[ssa.Value]bool) bool {
 		}
 	}
 	return true
+}
+
+
+// c08SliceOnlyCompared re-checks the premise of a reviewed map iteration that appends the elements to a slice: the elements
+// of that slice (whose order is Go's map order) are used only in comparisons, and whatever such a comparison guards treats
+// all participants alike (it is not inside an iteration whose current element it then updates), stores no element and
+// returns none. Returns the offending constructs.
+func c08SliceOnlyCompared(c *Ctx, f *ssa.Function, rg *ssa.Range) []string {
+	var next *ssa.Next
+	for _, ref := range *rg.Referrers() {
+		if n, ok := ref.(*ssa.Next); ok {
+			next = n
+		}
+	}
+	if next == nil {
+		return []string{"range without next"}
+	}
+	header := next.Block()
+	inLoop := map[*ssa.BasicBlock]bool{header: true}
+	for _, b := range f.Blocks {
+		if b != header && blockReach(header, b) && blockReach(b, header) {
+			inLoop[b] = true
+		}
+	}
+	slices := map[ssa.Value]bool{}
+	var work []ssa.Value
+	for b := range inLoop {
+		for _, in := range b.Instrs {
+			if call, ok := in.(*ssa.Call); ok {
+				if bi, isB := call.Common().Value.(*ssa.Builtin); isB && bi.Name() == "append" {
+					slices[call] = true
+					work = append(work, call)
+				}
+			}
+		}
+	}
+	if len(work) == 0 {
+		return nil
+	}
+	var bad []string
+	elems := map[ssa.Value]bool{}
+	var ework []ssa.Value
+	addElem := func(v ssa.Value) {
+		if !elems[v] {
+			elems[v] = true
+			ework = append(ework, v)
+		}
+	}
+	addSlice := func(v ssa.Value) {
+		if !slices[v] {
+			slices[v] = true
+			work = append(work, v)
+		}
+	}
+	loadsOf := func(a *ssa.Alloc, add func(ssa.Value)) {
+		for _, ref := range *a.Referrers() {
+			if u, ok := ref.(*ssa.UnOp); ok && u.Op == token.MUL {
+				add(u)
+			}
+		}
+	}
+	for len(work) > 0 {
+		v := work[len(work)-1]
+		work = work[:len(work)-1]
+		refs := v.Referrers()
+		if refs == nil {
+			continue
+		}
+		for _, ref := range *refs {
+			switch x := ref.(type) {
+			case *ssa.Phi, *ssa.Slice, *ssa.ChangeType:
+				addSlice(x.(ssa.Value))
+			case *ssa.IndexAddr:
+				if x.X == v {
+					addElem(x)
+				}
+			case *ssa.Index:
+				if x.X == v {
+					addElem(x)
+				}
+			case *ssa.Range:
+				addElem(x)
+			case *ssa.Store:
+				if x.Val == v {
+					if a, ok := x.Addr.(*ssa.Alloc); ok {
+						loadsOf(a, addSlice)
+					} else {
+						bad = append(bad, "the slice filled in map order is stored into "+ssax.Path(x.Addr)+" at "+c.PosOf(x))
+					}
+				}
+			case *ssa.Call:
+				if bi, isB := x.Common().Value.(*ssa.Builtin); isB {
+					if bi.Name() == "append" && len(x.Common().Args) > 0 && x.Common().Args[0] == v {
+						addSlice(x)
+					}
+					continue // len, cap, copy into something else: order-independent or judged at the destination
+				}
+				addElem(x) // the result of a call on the slice depends on its order unless proved otherwise
+			case *ssa.Return:
+				bad = append(bad, "the slice filled in map order is returned at "+c.PosOf(x))
+			}
+		}
+	}
+	var tainted []*ssa.If
+	for len(ework) > 0 {
+		v := ework[len(ework)-1]
+		ework = ework[:len(ework)-1]
+		refs := v.Referrers()
+		if refs == nil {
+			continue
+		}
+		for _, ref := range *refs {
+			switch x := ref.(type) {
+			case *ssa.If:
+				tainted = append(tainted, x)
+			case *ssa.Store:
+				if x.Val == v {
+					if a, ok := x.Addr.(*ssa.Alloc); ok {
+						loadsOf(a, addElem)
+					} else {
+						bad = append(bad, "an element chosen by map order is stored into "+ssax.Path(x.Addr)+" at "+c.PosOf(x))
+					}
+				}
+			case *ssa.MapUpdate:
+				bad = append(bad, "an element chosen by map order is put into a map at "+c.PosOf(x))
+			case *ssa.Return:
+				bad = append(bad, "an element chosen by map order is returned at "+c.PosOf(x))
+			case *ssa.DebugRef:
+			default:
+				if val, ok := ref.(ssa.Value); ok {
+					addElem(val)
+				}
+			}
+		}
+	}
+	// what an order-dependent comparison guards must treat every participant alike
+	var outerNexts func(v ssa.Value, succ *ssa.BasicBlock, depth int, seen map[ssa.Value]bool) bool
+	outerNexts = func(v ssa.Value, succ *ssa.BasicBlock, depth int, seen map[ssa.Value]bool) bool {
+		if v == nil || depth > 24 || seen[v] {
+			return false
+		}
+		seen[v] = true
+		if n, ok := v.(*ssa.Next); ok {
+			if it, isR := n.Iter.(*ssa.Range); isR && !dominatedBy(f, succ)[it.Block()] {
+				return true
+			}
+		}
+		in, ok := v.(ssa.Instruction)
+		if !ok {
+			return false
+		}
+		for _, op := range in.Operands(nil) {
+			if op != nil && *op != nil && outerNexts(*op, succ, depth+1, seen) {
+				return true
+			}
+		}
+		return false
+	}
+	for _, iff := range tainted {
+		for _, succ := range iff.Block().Succs {
+			if len(succ.Preds) != 1 {
+				continue
+			}
+			dom := dominatedBy(f, succ)
+			for _, b := range f.Blocks {
+				if !dom[b] {
+					continue
+				}
+				for _, in := range b.Instrs {
+					switch x := in.(type) {
+					case *ssa.Store:
+						if _, isAlloc := x.Addr.(*ssa.Alloc); isAlloc {
+							continue
+						}
+						if outerNexts(x.Addr, succ, 0, map[ssa.Value]bool{}) {
+							bad = append(bad, "the store into "+ssax.Path(x.Addr)+" at "+c.PosOf(x)+" updates the element of an enclosing iteration only when a comparison with an element chosen by map order says so (condition at "+c.PosOf(iff)+")")
+						}
+					case *ssa.MapUpdate:
+						if outerNexts(x.Key, succ, 0, map[ssa.Value]bool{}) {
+							bad = append(bad, "the map entry written at "+c.PosOf(x)+" is chosen by a comparison with an element taken in map order")
+						}
+					}
+				}
+			}
+		}
+	}
+	sort.Strings(bad)
+	return uniqStrings(bad)
+}
+
+func uniqStrings(s []string) []string {
+	var out []string
+	for i, x := range s {
+		if i == 0 || x != s[i-1] {
+			out = append(out, x)
+		}
+	}
+	return out
+}
+
+
+// dominatedBy: the blocks every path from the entry to which passes through d (computed on the graph as it is: functions
+// expanded by the inliner carry no dominator tree for their new blocks).
+func dominatedBy(f *ssa.Function, d *ssa.BasicBlock) map[*ssa.BasicBlock]bool {
+	reach := map[*ssa.BasicBlock]bool{}
+	var walk func(b *ssa.BasicBlock)
+	walk = func(b *ssa.BasicBlock) {
+		if b == d || reach[b] {
+			return
+		}
+		reach[b] = true
+		for _, s := range b.Succs {
+			walk(s)
+		}
+	}
+	if len(f.Blocks) > 0 {
+		walk(f.Blocks[0])
+	}
+	out := map[*ssa.BasicBlock]bool{}
+	for _, b := range f.Blocks {
+		if !reach[b] {
+			out[b] = true
+		}
+	}
+	return out
 }
